@@ -620,13 +620,27 @@ pub fn plan(prop: &str, tier: &str) -> Option<Plan> {
                     })
                     .collect()
             };
+            let deep = |ty: &str, hk: u8, depth: usize, ns: &str, fam: usize, secs: f64| {
+                let mut x = e1(prop, ty, hk, 0, "", &["cursor"], 33, 0, 0, "chk", secs);
+                x.engine = "e3".into();
+                x.extra.insert("fam".into(), fam.to_string());
+                x.extra.insert("deep".into(), depth.to_string());
+                x.extra.insert("deep_ns".into(), ns.into());
+                x.extra.insert("deep_cap".into(), "6000".into());
+                x.extra.insert("variants".into(), "2".into());
+                x
+            };
             if q {
+                for &hk in &HS4 {
+                    s.push(deep("u32", hk, 3, "15,29,30,31", 24, 45.0));
+                }
+                s.push(deep("tk", H_LOW, 3, "15,29,31", 16, 45.0));
                 s.extend(mk("u32", H_GOOD, 33, 72, 1, 4, 45.0));
                 s.extend(mk("tk", H_GOOD, 33, 60, 1, 4, 45.0));
                 s.extend(mk("u32", H_LOW, 33, 48, 1, 2, 45.0));
                 s.extend(mk("tk", H_CONST, 20, 40, 1, 2, 45.0));
                 s.extend(mk("zst", H_GOOD, 4, 40, 1, 1, 45.0));
-                bounds = json!({"E3": "every ordered (source, destination) pair of a family of <=72 states (growth path to N=33 + states directly after one shaping deviation), hasher seed pairs (1,1),(1,2),(2,1), same/disjoint keys; clone(), clone_from(), and each of 12 divergent calls on either side afterwards"});
+                bounds = json!({"E3-deep": "destinations reached by composing up to 3 shaping calls (retain with 5 structural predicates, shrink_to_fit, reserve, removals) from the growth path at 15/29/30/31 elements, x 24 sources, 4 hashers", "E3": "every ordered (source, destination) pair of a family of <=72 states (growth path to N=33 + states directly after one shaping deviation), hasher seed pairs (1,1),(1,2),(2,1), same/disjoint keys; clone(), clone_from(), and each of 12 divergent calls on either side afterwards"});
             } else {
                 for &hk in &HS4 {
                     s.extend(mk("u32", hk, 64, 240, 2, 4, 1500.0));
@@ -634,6 +648,10 @@ pub fn plan(prop: &str, tier: &str) -> Option<Plan> {
                 }
                 s.extend(mk("u32", H_GOOD, 130, 200, 1, 4, 1500.0));
                 s.extend(mk("zst", H_GOOD, 4, 40, 2, 1, 100.0));
+                for &hk in &HS4 {
+                    s.push(deep("u32", hk, 4, "7,14,15,29,30,31,57,60", 60, 1500.0));
+                    s.push(deep("tk", hk, 3, "15,29,31,57", 30, 1500.0));
+                }
                 bounds = json!({"E3": "every ordered pair of a family of <=240 states (growth path to N=64/130 + post-deviation states), 4 hashers, seed pairs (1,1),(1,2),(2,1); divergent histories of depth <=2"});
             }
         }
@@ -667,7 +685,13 @@ pub fn plan(prop: &str, tier: &str) -> Option<Plan> {
                 s.extend(pairs("u32", H_GOOD, 40, 120, 4, 45.0));
                 s.extend(pairs("tk", H_LOW, 33, 80, 2, 45.0));
                 s.extend(pairs("zst", H_GOOD, 2, 40, 1, 45.0));
-                bounds = json!({"E1": "set histories: d<=1 at N=64 (4 hashers), d<=2 at N=24", "E2": "fixpoint u=4/3, ZST", "E3": "every ordered pair of a family of <=120 set states x 4 key-overlap patterns x seed pairs (1,1),(1,2)"});
+                for &hk in &[H_LOW, H_CONST, H_GOOD] {
+                    let mut x = pairs("u32", hk, 33, 20, 1, 45.0).remove(0);
+                    x.extra.insert("deep".into(), "3".into());
+                    x.extra.insert("deep_ns".into(), "15,29,31".into());
+                    s.push(x);
+                }
+                bounds = json!({"E3-deep": "second operands reached by composing up to 3 shaping calls from 15/29/31 elements x 20 first operands", "E1": "set histories: d<=1 at N=64 (4 hashers), d<=2 at N=24", "E2": "fixpoint u=4/3, ZST", "E3": "every ordered pair of a family of <=120 set states x 4 key-overlap patterns x seed pairs (1,1),(1,2)"});
             } else {
                 for &hk in &HS4 {
                     s.push(set(e1(prop, "u32", hk, 0, "skey+sshape", &["cursor"], 130, 1, 1, "chk", 900.0)));
@@ -783,7 +807,13 @@ pub fn plan(prop: &str, tier: &str) -> Option<Plan> {
                 s.push(single("map", "u32", H_GOOD, 130, 45.0));
                 s.extend(pairs("u32", H_GOOD, 40, 100, 4, 45.0));
                 s.extend(pairs("tk", H_LOW, 24, 60, 2, 45.0));
-                bounds = json!({"single": "every family state (growth path to N=64/130 + states after one shaping deviation): serde_test token round trip (exact length, order, each element once; deserialize and deserialize_in_place compared with ==) and value-deserializers with size hints {exact, none, 0, 10^9}", "pairs": "HashSet::deserialize_in_place for every ordered (source, destination) pair of <=100 states x 4 hints x 2 seed pairs"});
+                for &hk in &[H_LOW, H_CONST, H_GOOD] {
+                    let mut x = pairs("u32", hk, 33, 16, 1, 45.0).remove(0);
+                    x.extra.insert("deep".into(), "3".into());
+                    x.extra.insert("deep_ns".into(), "15,29,31".into());
+                    s.push(x);
+                }
+                bounds = json!({"pairs-deep": "deserialize_in_place into destinations reached by composing up to 3 shaping calls from 15/29/31 elements", "single": "every family state (growth path to N=64/130 + states after one shaping deviation): serde_test token round trip (exact length, order, each element once; deserialize and deserialize_in_place compared with ==) and value-deserializers with size hints {exact, none, 0, 10^9}", "pairs": "HashSet::deserialize_in_place for every ordered (source, destination) pair of <=100 states x 4 hints x 2 seed pairs"});
             } else {
                 for w in ["map", "set"] {
                     for &hk in &HS4 {
